@@ -314,6 +314,21 @@ func c13Main(r *run.Runner) {
 		}
 		mustCompile(w, sb.String(), "large-let-expansion")
 	})
+	// string literals and quoted names with every escape at the start, in the middle and at the end of the body (an escaped
+	// backslash directly before the closing quote among them) break no rule
+	var bodies []string
+	for _, e := range []string{`\\`, `\'`, `\"`, `\n`, `\t`, `\\\\`, `\\\'`, `C:\\`} {
+		bodies = append(bodies, e, "x"+e, e+"y", "x"+e+"y", e+e)
+	}
+	strCtx := []string{"T | where a == %s", "T | extend s = %s | where s != %s", "let v = %s; T | where a == v", "T | where a in (%s, 'z') | project b = strcat(a, %s)", "T | join (R | where b == %s) on k", "T | where f(%s)[%s] == 1 | take 1"}
+	r.Sweep("string-escapes-compile", int64(len(bodies)), func(w *run.Worker, item int64) {
+		for _, q := range []string{"'", "\""} {
+			lit := q + bodies[item] + q
+			for _, c := range strCtx {
+				mustCompile(w, strings.ReplaceAll(c, "%s", lit), "string-escape")
+			}
+		}
+	})
 	// arity rules do not wrap around at large argument counts
 	r.Sweep("large-arities", int64(len(c13Arities)), func(w *run.Worker, item int64) {
 		a := c13Arities[item]
